@@ -169,8 +169,23 @@ impl Backend for Rasn {
     ) -> Result<GeneratedModule, GeneratorError> {
         if let Some(module_ref) = tlds.first().and_then(|tld| tld.get_module_header()) {
             let module = module_ref.borrow();
+            #[cfg(feature = "verif-hooks")]
+            let verif_env_before = (
+                format!("{:?}", self.tagging_environment),
+                format!("{:?}", self.extensibility_environment),
+            );
             self.tagging_environment = module.tagging_environment;
             self.extensibility_environment = module.extensibility_environment;
+            #[cfg(feature = "verif-hooks")]
+            crate::verif_hooks::record(crate::verif_hooks::Event::ModuleEnv {
+                module: module.name.clone(),
+                tagging_before: verif_env_before.0,
+                tagging_after: format!("{:?}", self.tagging_environment),
+                tagging_header: format!("{:?}", module.tagging_environment),
+                ext_before: verif_env_before.1,
+                ext_after: format!("{:?}", self.extensibility_environment),
+                ext_header: format!("{:?}", module.extensibility_environment),
+            });
             let name = self.to_rust_snake_case(&module.name);
             let custom_imports = self
                 .config
@@ -209,12 +224,34 @@ impl Backend for Rasn {
             });
             let (pdus, warnings): (Vec<TokenStream>, Vec<CompilerError>) =
                 tlds.into_iter().fold((vec![], vec![]), |mut acc, tld| {
+                    #[cfg(feature = "verif-hooks")]
+                    let verif_tld = (
+                        tld.name().clone(),
+                        crate::verif_hooks::tld_kind(&tld),
+                        module.name.clone(),
+                    );
                     match self.generate_tld(tld) {
                         Ok(s) => {
+                            #[cfg(feature = "verif-hooks")]
+                            crate::verif_hooks::record(crate::verif_hooks::Event::TldOutcome {
+                                module: verif_tld.2,
+                                name: verif_tld.0,
+                                kind: verif_tld.1,
+                                outcome: if s.is_empty() { "Empty" } else { "Tokens" },
+                                tokens: s.clone().into_iter().count(),
+                            });
                             acc.0.push(s);
                             acc
                         }
                         Err(e) => {
+                            #[cfg(feature = "verif-hooks")]
+                            crate::verif_hooks::record(crate::verif_hooks::Event::TldOutcome {
+                                module: verif_tld.2,
+                                name: verif_tld.0,
+                                kind: verif_tld.1,
+                                outcome: "Err",
+                                tokens: 0,
+                            });
                             acc.1.push(e.into());
                             acc
                         }
